@@ -363,7 +363,7 @@ func parseFuncHeader(s string) (name string, params, results []string, err error
 	s = strings.TrimSpace(s)
 	// the name may itself start with "(*T)."
 	i := 0
-	if strings.HasPrefix(s, "(*") {
+	if strings.HasPrefix(s, "(") {
 		j := strings.Index(s, ")")
 		if j < 0 {
 			return "", nil, nil, fmt.Errorf("bad receiver")
